@@ -21,6 +21,8 @@ def key_of(r):
         return r["front"] + ":accepted-without-workers"
     if r["accepted"] and not r["interval_ok"]:
         return r["front"] + ":accepted-with-non-positive-interval"
+    if r["accepted"] and not r.get("rate_ok", True):
+        return r["front"] + ":accepted-with-unusable-rate-function"
     if not r["accepted"] and r["setup_ran"]:
         return r["front"] + ":rejected-after-setup-ran"
     return r["front"] + ":accepted-but-did-not-run"
